@@ -131,11 +131,41 @@ def doc_spec(i: int) -> dict:
         # two documents that differ ONLY in the math of an initial assignment
         {"family": "F1", "params": {"c": 1.0, "k": 0.5}, "y0": {"x": 1.0}, "ia": "mul2"},
         {"family": "F1", "params": {"c": 1.0, "k": 0.5}, "y0": {"x": 1.0}, "ia": "add2"},
+        # documents that differ ONLY in a -1 vs a -2 (an exponent; a consumed amount): in CPython
+        # hash(-1) == hash(-2), so anything keyed by the hash of an expression confuses them
+        {"family": "F1", "params": {"c": 1.0, "k": 0.5}, "y0": {"x": 1.0}, "custom": "pow1"},
+        {"family": "F1", "params": {"c": 1.0, "k": 0.5}, "y0": {"x": 1.0}, "custom": "pow2"},
+        {"family": "F1", "params": {"c": 1.0, "k": 0.5}, "y0": {"x": 1.0}, "custom": "stoich2"},
     ]
     return table[i % len(table)]
 
 
-N_DOCS = 11
+N_DOCS = 14
+
+
+def _pw1(k, x):  # noqa: ANN001, ANN202
+    return k * x**-1
+
+
+def _pw2(k, x):  # noqa: ANN001, ANN202
+    return k * x**-2
+
+
+def _custom_model(spec: dict):  # noqa: ANN202
+    from mxlpy import Model
+
+    from simkit import fnlib
+
+    m = Model().add_parameters(dict(spec["params"])).add_variables(dict(spec["y0"]))
+    m.add_reaction("vin", fnlib.const, args=["c"], stoichiometry={"x": 1})
+    how = spec["custom"]
+    if how == "stoich2":
+        m.add_reaction("vout", fnlib.ma1, args=["x", "k"], stoichiometry={"x": -2})
+    else:
+        fn = _pw1 if how == "pow1" else _pw2
+        fn.__name__ = "vout"
+        m.add_reaction("vout", fn, args=["k", "x"], stoichiometry={"x": -1})
+    return m
 
 
 def _ia_mul2(c):  # noqa: ANN001, ANN202
@@ -158,7 +188,7 @@ def write_doc(i: int, path) -> None:  # noqa: ANN001
     from mxlpy import sbml
 
     spec = doc_spec(i)
-    sbml.write(models.build_model(spec), path)
+    sbml.write(_custom_model(spec) if spec.get("custom") else models.build_model(spec), path)
     if spec.get("ia"):
         text = Path(path).read_text()
         block = (
@@ -302,6 +332,7 @@ class Exec:
         self._iso: dict = {}
         self._doc_bytes: dict = {}
         self.torn_docs: set = set()
+        self.dirty: set = set()  # handles the caller has modified
 
     def close(self) -> None:
         shutil.rmtree(self.base, ignore_errors=True)
@@ -435,10 +466,31 @@ class Exec:
             self.counters["other_library_calls_in_session"] += 1
             self.trace.add("codegen", op["doc"])
             return
+        if k == "use_model":
+            # the user WORKS with a model it read (changes a parameter / an initial value); that
+            # handle is theirs now and is not compared any more - later reads of the document are
+            if not self.handles:
+                return
+            h = op["handle"] % len(self.handles)
+            m = self.handles[h][0]
+            try:
+                if op.get("how") == "var":
+                    m.update_variable(m.get_variable_names()[0], 7.25)
+                else:
+                    m.update_parameter(sorted(m.get_parameter_names())[0], 9.5)
+            except Exception as e:  # noqa: BLE001
+                self.trace.add("use_model", h, "exc", type(e).__name__)
+                return
+            self.dirty.add(h)
+            self.counters["caller_modified_a_model_it_read"] += 1
+            self.trace.add("use_model", h, op.get("how"))
+            return
         if k == "query":
             if not self.handles:
                 return
             h = op["handle"] % len(self.handles)
+            if h in self.dirty:
+                return
             if h < len(self.handles) - 1:
                 self.counters["probe:older_handle_queried_after_newer_read"] += 1
             self.check_handle(h, op.get("state", 1), "pickled" if op.get("pickled") else "later")
@@ -493,6 +545,11 @@ def gen_case(rng: SimRng, tier: str) -> dict:  # noqa: ARG001
     stems = r.sample(STEMS, r.randint(1, 3))
     dirs = r.sample(DIRS, r.randint(1, 2))
     docs = r.sample(range(N_DOCS), r.randint(2, 4))
+    if r.random() < 0.3:
+        # a pair of near-identical documents (they differ in one constant / one sign / a -1 vs -2)
+        docs = list(r.choice([(0, 13), (11, 12), (9, 10), (0, 1), (7, 8), (5, 6)]))
+        if r.random() < 0.5:
+            docs.reverse()
     ops: list[dict] = []
     nreads = 0
     for _ in range(n):
@@ -512,6 +569,8 @@ def gen_case(rng: SimRng, tier: str) -> dict:  # noqa: ARG001
             ops.append({"op": "tick", "dt": r.choice([0.0, 0.3, 0.3, 1.0, 5.0])})
         elif x < 0.78:
             ops.append({"op": "codegen", "doc": r.choice(docs)})
+        elif x < 0.84 and nreads:
+            ops.append({"op": "use_model", "handle": r.randrange(nreads), "how": r.choice(["param", "var"])})
         else:
             ops.append({"op": "query", "handle": r.randrange(max(1, nreads)), "state": r.randint(1, 4), "pickled": r.random() < 0.4})
     return {"bytecode": r.random() < 0.6, "ops": ops}
